@@ -559,6 +559,33 @@ def r03_12(chk, facts):
                                          'and this route disagrees with the decoder' % (fn['n'], lab, t, y.get('l')), None, fn['q'])
     chk.require(n >= 8, 'R03.12: only %d getters under numeric event labels found in staj_cursor.hpp' % n)
 
+def r03_13(chk, facts):
+    """A string that starts is scanned from the start label, whatever a string that was resumed earlier left behind."""
+    chk.rule('R03.13', 'token start resets the resume label: every place in the JSON parser that enters the string state for a new string '
+                       '(assigns state_ = parse_state::string and calls parse_string in the same block) assigns the resume label '
+                       '`string_state_` its initial value before the call, like its sibling start sites; without it a string that '
+                       'starts after another one was resumed in the middle of an escape is scanned from that escape state', floor=4)
+    n = 0
+    for fn in U.one_per_inst([f for f in U.functions(facts, cls='basic_json_parser') if f.get('body') is not None and not f.get('dep')]):
+        for blk in A.walk_no_lambda(fn['body']):
+            if blk.get('k') != 'CompoundStmt': continue
+            kids = blk.get('c') or []
+            for i, st in enumerate(kids):
+                call = next((c for c in A.calls_in(st) if A.callee_name(c) == 'parse_string'), None) if st.get('k') != 'CompoundStmt' and not any(x.get('k') in ('IfStmt', 'SwitchStmt', 'ForStmt', 'WhileStmt') for x in A.walk(st)) else None
+                if call is None: continue
+                before = kids[:i]
+                ams = [U.assigned_member(x) for b in before for x in ([A.strip(b)] if A.strip(b) is not None else []) if x.get('k') in ('BinaryOperator', 'CXXOperatorCallExpr')]
+                ams = [a for a in ams if a]
+                if not any(a[0] == 'state_' and (U.enum_const_name(a[1]) == 'string' or 'string' in A.text(a[1])) for a in ams): continue     # a resumption, not a start
+                n += 1
+                chk.analysed(fn)
+                site = U.site(fn, 'string start@%d' % (call.get('l', 0) - fn['l']))
+                if any(a[0] == 'string_state_' for a in ams): chk.ok('R03.13', site, {'line': call.get('l')})
+                else:
+                    chk.fail('R03.13', site, fn['file'], call.get('l'), '%s enters the string state at line %s without resetting string_state_: parse_string resumes at the label the previous resumed string '
+                             'left (inside an escape), so the first characters of this string are read as the rest of that escape' % (fn['n'], call.get('l')), None, fn['q'])
+    chk.require(n >= 4, 'R03.13: only %d string start sites found in basic_json_parser' % n)
+
 def run(chk, tier, only_rule=None):
     chk.explanation = EXPLANATION
     chk.not_decided = NOT_DECIDED
@@ -573,6 +600,7 @@ def run(chk, tier, only_rule=None):
     r03_10(chk, facts)
     r03_11(chk, facts)
     r03_12(chk, facts)
+    r03_13(chk, facts)
     from . import c02
     c02.r02_8(chk, facts)      # the first-chunk examination must not recur at later chunk boundaries
     from . import c05
